@@ -201,6 +201,9 @@ def _progs():
     P["chain each-each h"] = ("h''m", lambda v, w, n: [x_each(MO["h"], r) for r in (v, w)], lambda v, w, n: len(v) == len(w) and len(v) > 0)
     P["chain eachpair-each -"] = ("-:''m", lambda v, w, n: [x_each_pair(DY["-"], r) for r in (v, w)], lambda v, w, n: len(v) == len(w) and len(v) > 1)
     P["chain join-over-converge"] = (",/:~deep", lambda v, w, n: [n] + v + [n, n], lambda v, w, n: len(v) > 0)
+    # a RECTANGULAR list whose cells are themselves nested lists (2x2 outer shape, ragged inside)
+    P["over join on a row of a rectangular nested list"] = (",/rect@0", lambda v, w, n: [n, v, [n]], lambda v, w, n: len(v) > 0)
+    P["chain join-over-converge each rectangular nested"] = ("{,/:~x}'rect", lambda v, w, n: [[n] + v + [n], [n, n]], lambda v, w, n: len(v) > 0)
     # matrices: the shortcut guards (ndim, dtype) must not change the meaning
     for f in ("+", "-", "*", "|", "&", ","):
         fn = DY[f]
@@ -225,6 +228,7 @@ def _bind(v, w, n):
     K['nest'] = W.arr([n, [n + 1, n], n])
     if len(v) > 0:
         K['deep'] = W.arr([n, [v, [n]], n])
+        K['rect'] = W.arr([[n, [v, [n]]], [[[n]], n]])
     if len(v) == len(w) and len(v) > 0:
         K['m'] = W.arr([v, w])
 
